@@ -276,7 +276,10 @@ class RaggedArray(IndexableArray, np.lib.mixins.NDArrayOperatorsMixin):
         # hack to fix problem that reduceat does not give identity when index i == index i+1 (empty rows)
         # not necessary when ufunc does not have identity
         if ufunc.identity is not None:
-            result[ra._shape.lengths == 0] = ufunc.reduce(result[:0])
+            identity = ufunc.reduce(result[:0])
+            result[ra._shape.lengths == 0] = identity
+            # numpy folds the identity into every reduction (gcd.reduce([-2]) is gcd(0, -2) == 2)
+            result = ufunc(identity, result)
 
         if keepdims:
             result = result[:, None]
